@@ -28,51 +28,57 @@ def enc(v):
     return ['other', repr(v)]
 
 
-def do_op(t, op):
-    """apply op (a list: name, args...) to target t (a proxy or a local object); returns (encoded answer, raw result)"""
-    from mpservice.multiprocessing.remote_exception import get_remote_traceback, is_remote_exception
+def raw_op(t, op):
+    """apply op (a list: name, args...) to target t (a proxy or a local object); returns the result or raises"""
     k, a = op[0], op[1:]
+    if k == 'append': return t.append(a[0])
+    if k == 'extend': return t.extend(a[0])
+    if k == 'insert': return t.insert(a[0], a[1])
+    if k == 'pop': return t.pop()
+    if k == 'popat': return t.pop(a[0])
+    if k == 'remove': return t.remove(a[0])
+    if k == 'index': return t.index(a[0])
+    if k == 'count': return t.count(a[0])
+    if k in ('len', 'dlen'): return len(t)
+    if k in ('get', 'dget'): return t[a[0]]
+    if k in ('set', 'dset'):
+        t[a[0]] = a[1]
+        return None
+    if k in ('del', 'ddel'):
+        del t[a[0]]
+        return None
+    if k in ('contains', 'dcontains'): return a[0] in t
+    if k == 'reverse': return t.reverse()
+    if k == 'sort': return t.sort()
+    if k == 'add': return t + a[0]
+    if k == 'mul': return t * a[0]
+    if k == 'dpop': return t.pop(a[0])
+    if k == 'dpopd': return t.pop(a[0], a[1])
+    if k == 'dgetd': return t.get(a[0], a[1])
+    if k == 'dgetn': return t.get(a[0])
+    if k == 'dclear': return t.clear()
+    if k == 'dsetdefault': return t.setdefault(a[0], a[1])
+    if k == 'dupdate': return t.update([tuple(p) for p in a[0]])
+    if k == 'dpopitem': return t.popitem()
+    if k == 'dcopy': return t.copy()
+    if k == 'vget': return t.value
+    if k == 'vset':
+        t.value = a[0]
+        return None
+    if k == 'fmake': return t.make_list(a[0])
+    if k == 'fpeek': return t.peek(a[0])
+    if k == 'fnmade': return t.nmade()
+    if k == 'ffail': return t.fail(a[0])
+    if k == 'via': return t.via(a[0], a[1])          # the hosted object applies a[1] through the proxy it holds under a[0]
+    if k == 'call': return getattr(t, a[0])(*a[1:])
+    raise RuntimeError('unknown op ' + k)
+
+
+def do_op(t, op):
+    """returns (encoded answer, raw result)"""
+    from mpservice.multiprocessing.remote_exception import get_remote_traceback, is_remote_exception
     try:
-        if k == 'append': r = t.append(a[0])
-        elif k == 'extend': r = t.extend(a[0])
-        elif k == 'insert': r = t.insert(a[0], a[1])
-        elif k == 'pop': r = t.pop()
-        elif k == 'popat': r = t.pop(a[0])
-        elif k == 'remove': r = t.remove(a[0])
-        elif k == 'index': r = t.index(a[0])
-        elif k == 'count': r = t.count(a[0])
-        elif k in ('len', 'dlen'): r = len(t)
-        elif k in ('get', 'dget'): r = t[a[0]]
-        elif k in ('set', 'dset'):
-            t[a[0]] = a[1]
-            r = None
-        elif k in ('del', 'ddel'):
-            del t[a[0]]
-            r = None
-        elif k in ('contains', 'dcontains'): r = a[0] in t
-        elif k == 'reverse': r = t.reverse()
-        elif k == 'sort': r = t.sort()
-        elif k == 'add': r = t + a[0]
-        elif k == 'mul': r = t * a[0]
-        elif k == 'dpop': r = t.pop(a[0])
-        elif k == 'dpopd': r = t.pop(a[0], a[1])
-        elif k == 'dgetd': r = t.get(a[0], a[1])
-        elif k == 'dgetn': r = t.get(a[0])
-        elif k == 'dclear': r = t.clear()
-        elif k == 'dsetdefault': r = t.setdefault(a[0], a[1])
-        elif k == 'dupdate': r = t.update([tuple(p) for p in a[0]])
-        elif k == 'dpopitem': r = t.popitem()
-        elif k == 'dcopy': r = t.copy()
-        elif k == 'vget': r = t.value
-        elif k == 'vset':
-            t.value = a[0]
-            r = None
-        elif k == 'fmake': r = t.make_list(a[0])
-        elif k == 'fpeek': r = t.peek(a[0])
-        elif k == 'fnmade': r = t.nmade()
-        elif k == 'ffail': r = t.fail(a[0])
-        else:
-            raise RuntimeError('unknown op ' + k)
+        r = raw_op(t, op)
     except Exception as e:  # noqa
         args = [x if isinstance(x, (int, str)) else repr(x) for x in e.args]
         info = {'remote': bool(is_remote_exception(e))}
